@@ -318,6 +318,17 @@ func (q ecsQuery) msg(id uint16) *dns.Msg {
 	if q.DO || q.ECS != "" || q.EDNS {
 		m.SetEdns0(1232, q.DO)
 	}
+	if strings.HasPrefix(q.ECS, "dup:") {
+		// Two ECS options in one query.
+		opt := m.IsEdns0()
+		for _, p := range strings.Split(strings.TrimPrefix(q.ECS, "dup:"), "+") {
+			pfx := netip.MustParsePrefix(p)
+			a := pfx.Addr().As4()
+			opt.Option = append(opt.Option, &dns.EDNS0_SUBNET{Code: dns.EDNS0SUBNET, Family: 1, SourceNetmask: uint8(pfx.Bits()), Address: net.IP(a[:])})
+		}
+
+		return m
+	}
 	if q.ECS != "" {
 		opt := m.IsEdns0()
 		o := &dns.EDNS0_SUBNET{Code: dns.EDNS0SUBNET}
@@ -354,6 +365,13 @@ func (q ecsQuery) ecsPrefix() (p netip.Prefix, present, valid bool) {
 		return netip.Prefix{}, false, false
 	case "badfamily", "badlen":
 		return netip.Prefix{}, true, false
+	}
+	if strings.HasPrefix(q.ECS, "dup:") {
+		// The first option is the one a server answers to.
+		first, _, _ := strings.Cut(strings.TrimPrefix(q.ECS, "dup:"), "+")
+		p, err := netip.ParsePrefix(first)
+
+		return p, true, err == nil && p.Masked() == p
 	}
 	p, err := netip.ParsePrefix(q.ECS)
 	if err != nil {
